@@ -2,8 +2,8 @@
 //!
 //! The scope graph of a type-checked program as plain text, one line per
 //! scope in allocation order:
-//! `printed name|parent|alias>scope.ident,…|ident:kind,…`
-//! where `@` is the root scope and `-` stands for "no parent".
+//! `index|parent index|printed name|alias>scope index.ident,…|ident:kind[@owned scope index],…`
+//! where `@` is the printed name of the root scope and `-` stands for "no parent".
 
 use crate::{pipeline::TypeChecked, runtime::OptCtx};
 
